@@ -379,6 +379,34 @@ pub fn main(ctx: &Ctx) -> ! {
         }
         acc.outcomes.lock().unwrap().extend(local);
     });
+    // long runs: a special after (and between) filler runs whose length sits on or next to every power of
+    // two up to 64 Ki and on every length up to 130 (look-ahead windows, buffer sizes, stride multiples)
+    let mut run_lens: Vec<usize> = (0..=130).collect();
+    for k in 7..=16u32 {
+        let p = 1usize << k;
+        run_lens.extend([p - 2, p - 1, p, p + 1, p + 2, p + p / 2]);
+    }
+    let long_cap = ctx.tier.pick(4200, 70_000);
+    run_lens.retain(|l| *l <= long_cap);
+    run_lens.sort();
+    run_lens.dedup();
+    let n_runs = run_lens.len();
+    run_lens.par_iter().for_each(|&len| {
+        let mut local = BTreeSet::new();
+        for filler in ["a", "\u{e9}", "\u{a2}"] {
+            if filler != "a" && len > 5000 {
+                continue;
+            }
+            let run = filler.repeat(len);
+            for a in ["<", ">", "\"", "&", "\u{a0}", "<b>x</b>", "\" id=\"y"] {
+                for s in [format!("{run}{a}"), format!("{run}{a}b"), format!("&{run}{a}"), format!("{a}{run}{a}b"), format!("\u{a0}{run}{a}{run}<")] {
+                    roundtrip(ctx, &acc, &shp[1], &s, "", &mut local);
+                    roundtrip(ctx, &acc, &shp[2], &s, "", &mut local);
+                }
+            }
+        }
+        acc.outcomes.lock().unwrap().extend(local);
+    });
     // every character U+0001..U+00FF (no CR) and some from the other planes, alone and next to each special
     let mut singles: Vec<char> = (1u32..=0xFF).filter(|c| *c != 0x0D).filter_map(char::from_u32).collect();
     singles.extend(['\u{100}', '\u{7ff}', '\u{800}', '\u{c2a0}', '\u{2028}', '\u{feff}', '\u{fffd}', '\u{ffff}', '\u{10000}', '\u{10ffff}']);
@@ -455,6 +483,7 @@ pub fn main(ctx: &Ctx) -> ! {
             "distinct_nontrivial": acc.outcomes.lock().unwrap().len(),
             "rule": format!("(a) 8 tree shapes x all strings of length <= {l1} (single-string shapes and s=t) and all pairs of strings of length <= {l2}: serialize(ChildrenOnly) -> parse_fragment(div) must reproduce the tree, output valid UTF-8; memchr windows: 0..=N a's with one/two specials at every position. (b) every element of every parsed tree of the corpus (all pairs of tree lexemes + raw-text/foreign specials) x scripting: IncludeNode == start tag + ChildrenOnly(Some(name)) + end tag, document serialization == R-ser. distinct_nontrivial = distinct serializations."),
             "exhaustive": true,
+            "long_run_lengths": n_runs,
             "strings_single": single.len(),
             "strings_pairs": short.len() * short.len(),
             "inner_outer_inputs": corpus.len(),
